@@ -180,7 +180,7 @@ def run_chunk(args):
                 close_group()
                 state["opi"] += 1
                 # recover the tokens of this E operation from the history text
-                es = [l for l in hist_lines.get(cur, []) if l.startswith("E ") and l.split()[1] not in ("con", "gen", "cg", "sys")]
+                es = [l for l in hist_lines.get(cur, []) if l.startswith("E ") and l.split()[1] not in ("con", "gen", "cg", "sys", "sysop")]
                 state["cur_e"] = es[state["opi"]].split()[1:] if state["opi"] < len(es) else [name, "0"]
             group.append(c)
             if c != m:
